@@ -2,6 +2,7 @@ package main
 
 import (
 	"fmt"
+	"sort"
 	"strings"
 )
 
@@ -552,6 +553,67 @@ func checkC07(c *Check) {
 				}
 			}
 		}
+	}
+	// ... nor on the branch the construct stands in: a construct that only the back-end refuses (break in a switch
+	// outside any loop, ordering comparison of strings) gets the same verdict in every position of a program
+	{
+		wrap := map[string]func(string) string{
+			"top":             func(x string) string { return x },
+			"if-branch":       func(x string) string { return "if n == 1 {\n" + x + "} else {\n\tprint(\"e\")\n}\n" },
+			"elseif-branch":   func(x string) string { return "if n == 2 {\n\tprint(\"a\")\n} else if n == 1 {\n" + x + "} else {\n\tprint(\"e\")\n}\n" },
+			"else-branch":     func(x string) string { return "if n == 2 {\n\tprint(\"a\")\n} else {\n" + x + "}\n" },
+			"else-of-else":    func(x string) string { return "if n == 2 {\n\tprint(\"a\")\n} else {\n\tif n == 3 {\n\t\tprint(\"b\")\n\t} else {\n" + x + "\t}\n}\n" },
+			"if-in-else":      func(x string) string { return "if n == 2 {\n\tprint(\"a\")\n} else {\n\tif n == 1 {\n" + x + "\t}\n}\n" },
+			"function-body":   func(x string) string { return "func run() {\n" + x + "}\nrun()\n" },
+			"function-else":   func(x string) string { return "func run() {\n\tif n == 2 {\n\t\tprint(\"a\")\n\t} else {\n" + x + "\t}\n}\nrun()\n" },
+			"outer-default":   func(x string) string { return "switch n {\ncase 5:\n\tprint(\"five\")\ndefault:\n" + x + "}\n" },
+			"outer-case":      func(x string) string { return "switch n {\ncase 1:\n" + x + "default:\n\tprint(\"d\")\n}\n" },
+			"outer-last-case": func(x string) string { return "switch n {\ncase 5:\n\tprint(\"five\")\ncase 1:\n" + x + "}\n" },
+		}
+		constructs := map[string]string{
+			"break-in-case":         "switch n {\ncase 1:\n\tprint(\"one\")\n\tbreak\ndefault:\n\tprint(\"other\")\n}\n",
+			"break-in-later-case":   "switch n {\ncase 4:\n\tprint(\"four\")\ncase 1:\n\tbreak\n}\n",
+			"break-in-default":      "switch n {\ncase 4:\n\tprint(\"four\")\ndefault:\n\tprint(\"other\")\n\tbreak\n}\n",
+			"break-in-only-default": "switch n {\ndefault:\n\tbreak\n}\n",
+			"break-in-if-in-default": "switch n {\ncase 4:\n\tprint(\"four\")\ndefault:\n\tif n == 1 {\n\t\tbreak\n\t}\n}\n",
+			"break-in-else-in-case": "switch n {\ncase 1:\n\tif n == 4 {\n\t\tprint(\"four\")\n\t} else {\n\t\tbreak\n\t}\n}\n",
+			"string-ordering":       "print(\"a\" < \"b\")\n",
+			"string-ordering-to-variable": "lt := \"a\" >= \"b\"\nprint(lt)\n",
+		}
+		ck := []string{}
+		for k := range constructs {
+			ck = append(ck, k)
+		}
+		sort.Strings(ck)
+		wk := []string{}
+		for k := range wrap {
+			wk = append(wk, k)
+		}
+		sort.Strings(wk)
+		family := func(k string) string {
+			if strings.HasPrefix(k, "break") {
+				return "break"
+			}
+			return "ordering"
+		}
+		first := map[string]string{}
+		firstSrc := map[string]string{}
+		counts := map[string]int{}
+		for _, k := range ck {
+			for _, w := range wk {
+				src := "n := 1\n" + wrap[w](constructs[k])
+				va, vb, _ := transpileBoth(src, nil)
+				c.Eval("backend-refusal-position\x00"+src, true)
+				v := verdictOf(va) + "/" + verdictOf(vb)
+				counts[family(k)+": "+v]++
+				if f, ok := first[family(k)]; !ok {
+					first[family(k)], firstSrc[family(k)] = v, src
+				} else if f != v {
+					c.Violation(fmt.Sprintf("backend-refusal-position/%s/%s", k, w), fmt.Sprintf("%s at position %s: Bash/Batch verdicts %s, but %s for the same kind of construct elsewhere", k, w, v, f), map[string]string{"main.tsh": src, "elsewhere.tsh": firstSrc[family(k)]})
+				}
+			}
+		}
+		c.Extra["backend_refusal_position_verdicts"] = counts
 	}
 	c.Extra["observed_accepts"] = na
 	c.Extra["observed_rejects"] = len(cells) - na
